@@ -130,6 +130,16 @@ PROPS["C04"] = dict(
                  "SendingTime is taken from the real clock, far inside the latency window"],
 )
 
+PROPS["C01"] = dict(
+    pkg="./props/session", level="exploration", design_ref="DESIGN.md §3 C01",
+    technique="rapid state-machine histories (faithful counterparty traffic + injected messages placed relative to the expected number) under trace invariants read inside the application callbacks",
+    level_note=SESSION_NOTE,
+    stages=[dict(name="rapid", kind="rapid", run="^TestC01_Rapid$", checks=(1500, 30000), shards=(12, 16), timeout=(600, 3000))],
+    require=["history-with:delivery-from-stash", "history-with:possdup-replay-delivered", "history-with:sequence-reset", "history-with:reconnect",
+             "history-with:in-sequence-delivery", "chunk:true", "chunk:false"],
+    assumptions=["in-session Logon messages and header defects are left to C07/C06", "the application callbacks never return an error in this check"],
+)
+
 NOT_APPLICABLE = {}
 
 HOOK_COMMITS = ["ce15100"]
